@@ -8,10 +8,10 @@ From Coq Require Import List NArith ZArith Bool.
 From RV Require Import Base.F64 Base.FMod Model.Numeric Spec.SassExpr Model.ExprParse.
 Import ListNotations.
 
-(* impl Rem for &Number *)
+(* impl Rem for &Number (with fix cc06893: a zero remainder is returned as it is) *)
 Definition rsass_rem (a b : f64) : f64 :=
   let r := ffmod a b in
-  if negb (feq a f_zero) && negb (Bool.eqb (f_sign_neg b) (f_sign_neg a))
+  if negb (feq a f_zero) && negb (feq r f_zero) && negb (Bool.eqb (f_sign_neg b) (f_sign_neg a))
   then (if f_is_finite b then fadd r b else f_nan)
   else r.
 
